@@ -154,6 +154,15 @@ def run(ck):
     ck.clause("C18.7", "ids, coordinates and lengths are converted by plain int() truncation when a record is parsed")
     ctx = ck.ctx
     p = ctx.p
+    ck.clause("C18.13", "what a read returns is what that file holds: the XMAP reader chain keeps nothing from one read to the next "
+                        "(no class-level / module-level write, no mutable default changed in place; as C10.1)")
+    from ..report import RuleView as _RV18
+    from . import c10 as _c10
+    rd_fns = [f for f in p.nontest_functions() if f.module.name in ("src.parsers.xmap_reader", "src.parsers.bionano_file_reader",
+                                                                      "src.parsers.xmap_alignment_pair_parser",
+                                                                      "src.correlation.bionano_alignment")]
+    _c10.module_state(_RV18(ck, {"C10.1": "C18.13"}), fns=rd_fns, floor=15)
+    ck.ok("C18.13", "xmap-reader-chain:state", "src/parsers/xmap_reader.py", f"{len(rd_fns)} functions scanned", "")
     truncation(ck)
     ck.clause("C18.10", "the XMAP columns are read at pandas' default precision: no narrow dtype anywhere in the XMAP reader chain "
                         "(a float32 moves coordinates above 16.7 Mb by one or two base pairs before int() truncates them)")
